@@ -79,6 +79,7 @@ type FuncContract struct {
 	AllocBound map[int]string
 	Fresh      []string // results that are freshly allocated
 	Trusted    bool     // body is not verified (explicitly listed as assumption)
+	NoReturn   []Clause // conditions (over entry values) under which the function never returns
 	Sticky     bool     // successive results on the same arguments: once non-zero, stays the same
 	DeadEdges  int      // number of control-flow edges accepted as infeasible (defensive code)
 }
@@ -451,6 +452,14 @@ func parseSpecFile(path string, pkgPath string, raw bool) (*SpecFile, error) {
 			cur.Neutral = true
 		case "trusted":
 			cur.Trusted = true
+		case "noreturn":
+			r := strings.TrimSpace(rest)
+			if strings.HasPrefix(r, "when ") {
+				r = strings.TrimSpace(r[5:])
+			} else if r == "" {
+				r = "true"
+			}
+			cur.NoReturn = append(cur.NoReturn, parseClause(r, path, nums[i]))
 		case "sticky":
 			cur.Sticky = true
 			cur.Neutral = true
